@@ -18,4 +18,3 @@ def run(ctx, res):
     c10.rule_status_table(ctx, res)
     c10.rule_update_table(ctx, res)
     c10.rule_event_methods(ctx, res)
-    refresh.rule_single_chain(ctx, res)
